@@ -183,6 +183,9 @@ func (f *Frame) expr(st *State, e ast.Expr) Term {
 		if isStructValue(obj.Type()) {
 			vc.fail(e.Pos(), "struct value %s used as a whole (only its fields are supported)", e.Name)
 		}
+		if _, isGhostMap := f.ghostMapVar(e); isGhostMap {
+			vc.fail(e.Pos(), "ghost map %s may only be indexed", e.Name)
+		}
 		return f.lookupVar(st, obj, e.Pos())
 	case *ast.BasicLit:
 		vc.fail(e.Pos(), "literal %s without constant value", e.Value)
@@ -223,6 +226,10 @@ func (f *Frame) expr(st *State, e ast.Expr) Term {
 		xt := f.typeOf(e.X).Underlying()
 		switch xt := xt.(type) {
 		case *types.Map:
+			if gv, ok := f.ghostMapVar(e.X); ok {
+				k := f.convert(f.expr(st, e.Index), f.typeOf(e.Index), xt.Key())
+				return Select(f.ghostMapArr(st, gv), k)
+			}
 			m := f.expr(st, e.X)
 			k := f.convert(f.expr(st, e.Index), f.typeOf(e.Index), xt.Key())
 			_, vs := vc.mapSorts(xt)
@@ -385,7 +392,37 @@ const (
 	locGlobal
 	locSliceElem
 	locMapElem
+	locGhostMapElem
 )
+
+// ghostMapVar: a package-level map variable declared in a contract file. Such maps are only ever
+// indexed (checked here syntactically: any other use is rejected), so they are modelled as one total
+// array each instead of a reference into the shared map heap.
+func (f *Frame) ghostMapVar(e ast.Expr) (*types.Var, bool) {
+	id, ok := ast.Unparen(e).(*ast.Ident)
+	if !ok {
+		return nil, false
+	}
+	v, ok := f.info().Uses[id].(*types.Var)
+	if !ok || v.Pkg() == nil || v.Parent() != v.Pkg().Scope() {
+		return nil, false
+	}
+	if _, isMap := v.Type().Underlying().(*types.Map); !isMap {
+		return nil, false
+	}
+	if !f.vc.prog.isSpecVar(v) {
+		return nil, false
+	}
+	return v, true
+}
+
+func ghostMapKey(v *types.Var) string { return "GM:" + v.Pkg().Name() + "." + v.Name() }
+
+func (f *Frame) ghostMapArr(st *State, v *types.Var) Term {
+	mt := v.Type().Underlying().(*types.Map)
+	ks, vs := f.vc.mapSorts(mt)
+	return f.vc.heapGet(st, ghostMapKey(v), ArraySort(ks, vs))
+}
 
 type Loc struct {
 	kind   locKind
@@ -486,6 +523,10 @@ func (f *Frame) loc(st *State, e ast.Expr) Loc {
 		xt := f.typeOf(e.X).Underlying()
 		switch xt := xt.(type) {
 		case *types.Map:
+			if gv, ok := f.ghostMapVar(e.X); ok {
+				k := f.convert(f.expr(st, e.Index), f.typeOf(e.Index), xt.Key())
+				return Loc{kind: locGhostMapElem, obj: gv, idx: k, typ: f.subst(xt.Elem())}
+			}
 			m := f.expr(st, e.X)
 			k := f.convert(f.expr(st, e.Index), f.typeOf(e.Index), xt.Key())
 			return Loc{kind: locMapElem, ref: m, idx: k, typ: f.subst(xt.Elem())}
@@ -540,6 +581,8 @@ func (f *Frame) load(st *State, l Loc, pos token.Pos) Term {
 			srt = f.sortOf(l.typ)
 		}
 		return vc.mapRead(st, l.ref, l.idx, srt)
+	case locGhostMapElem:
+		return Select(f.ghostMapArr(st, l.obj.(*types.Var)), l.idx)
 	}
 	panic("load")
 }
@@ -597,6 +640,9 @@ func (f *Frame) store(st *State, l Loc, v Term, pos token.Pos) {
 	case locMapElem:
 		f.safe(st, Not(Eq(l.ref, IntLit(0))), "nilmapwrite", pos)
 		vc.mapWrite(st, l.ref, l.idx, v)
+	case locGhostMapElem:
+		gv := l.obj.(*types.Var)
+		vc.heapSet(st, ghostMapKey(gv), vc.define("gm", Store(f.ghostMapArr(st, gv), l.idx, v)))
 	}
 }
 
